@@ -156,6 +156,10 @@ def one_op(p, inner=False):
         if p["arcs"] and p["rel"] and p.get("relarc", 2):
             # an arc under G91 (optionally followed by a relative move), then back to G90
             parts += [(p.get("relarc", 2), st.tuples(st.just("relarc"), op_arc(), st.one_of(st.none(), op_move())))]
+        if p.get("cvisit") and not inner and p["retract"] != "none":
+            # retract / recover cycles deliberately cut by episode boundaries (R toggle cycle, I move in, O move out, P print)
+            parts += [(p["cvisit"], st.tuples(st.just("cvisit"), st.sampled_from(CUT_PATTERNS), st.integers(0, 7),
+                                              st.integers(0, 120), st.integers(0, 120)))]
         if p.get("offon") and not inner:
             # exclusion switched off, a few ops, switched on again, then a single-axis move
             parts += [(p["offon"], st.tuples(st.just("offon"), st.lists(one_op(p, True), min_size=1, max_size=4),
@@ -169,6 +173,9 @@ def one_op(p, inner=False):
             parts += [(4, op_visit(p))]
         _CACHE[key] = weighted(parts)
     return _CACHE[key]
+
+
+CUT_PATTERNS = ["RIROP", "IRORP", "RIRRORP", "IRROP", "RIORP", "RIRORRP", "RIROIOP", "RIROIROP", "IRORIP", "RIRDP", "IRDRP", "RIRORP"]
 
 
 def op_visit(p):
@@ -368,6 +375,20 @@ class Renderer(object):  # pylint: disable=too-many-instance-attributes
             if not words:
                 return
             self.g(g + words, precheck=True)
+        elif k == "cvisit":
+            _, pat, rsel, i, j = o
+            for n_, tok in enumerate(pat):
+                if tok == "R":
+                    self.cycle()
+                elif tok == "I":
+                    self.op(("mv", "in", rsel, i + n_, j + n_, 3, None, 0, None, "G1"))
+                elif tok == "O":
+                    self.op(("mv", "edge_out", rsel, i + n_, j + n_, 3, None, 0, None, "G1"))
+                elif tok == "D" and self.p["at"]:
+                    self.op(("at", "off", "ExcludeRegion", False))
+                    self.op(("at", "on", "ExcludeRegion", False))
+                elif tok == "P":
+                    self.op(("mv", "grid", rsel, (i * 3 + n_) % 121, (j * 5 + n_) % 121, 3, None, 2, None, "G1"))
         elif k == "relarc":
             if self.exact:
                 self.rewrites += 1
